@@ -313,6 +313,148 @@ def units(w):
     for name in ("FuncBitShiftLeft", "FuncBitShiftRight", "FuncBitRotateLeft", "FuncBitRotateRight"):
         for n in list(range(0, 64)) + [-1]:
             U.append(shift_unit(name, n))
+    # =========================================================== integer functions written in Checkerlang (math.ckl): abs, sign, gcd, lcm
+    # The real interpreter loads the real module natively; its heap (environments, function values, node trees) is reflected
+    # into the engine and the function is called with symbolic arguments: what is executed is nodes.py / functions.py /
+    # values.py over the nodes the real parser built from math.ckl (contracts/cklsym.py).  gcd is recursive: inside its body the
+    # name gcd is bound to the contract (induction hypothesis), with the measure |b| that must decrease.
+    import sys as _sys
+    from . import cklsym
+    from .common import StubFuncs as _StubFuncs
+    GCD = z3.Function("EUCLID", z3.IntSort(), z3.IntSort(), z3.IntSort())     # spec: E(a, 0) = |a|, E(a, b) = E(b, a mod b) (floor mod)
+    zabs = lambda x: z3.If(x >= 0, x, -x)
+    pymod = lambda x, y: x - y * z3.If(y > 0, x / y, (-x) / (-y))
+
+    def ckl_call(it, text, bindings, patch=None):
+        I = cklsym.native_session(("Math",))
+        R = cklsym.Reflector(w)
+        R.seed_singletons(_sys.modules["ckl.values"])
+        env = R.reflect(I.environment)
+        if patch:
+            patch(it, R, I)
+        call = R.reflect(_sys.modules["ckl.parser"].parse_script(text, "unit"))
+        return call, real_env(w, it, bindings, parent=env)
+
+    def num_arg(it, kind, name):
+        return {"int": V.int, "decimal": V.dec, "string": V.string}[kind](it, name) if kind != "null" else V.NULL
+
+    def s_absign(fname):
+        def setup(it):
+            kind = ("int", "decimal", "null", "string")[it.path.choose(4)]
+            n = num_arg(it, kind, "n")
+            call, env = ckl_call(it, f"Math->{fname}(n)", {"n": n})
+            return [call, env], {}, {"n": n, "kind": kind}
+        return setup
+
+    def p_absign(fname):
+        def post(it, c, o):
+            k, n = c["kind"], c["n"]
+            if k == "string":
+                it.check("raises:a-non-number-is-a-language-error", o.kind == "raise" and o.exc_class == "CklRuntimeError")
+                return
+            it.check("post:returns", o.kind == "return")
+            if o.kind != "return":
+                return
+            if k == "null":
+                it.check("post:NULL-for-NULL", o.value is V.NULL)
+            elif k == "int":
+                nz = zi(n.fields["value"])
+                it.check("post:an-int", cls_name(o.value) == "ValueInt")
+                if cls_name(o.value) == "ValueInt":
+                    want = zabs(nz) if fname == "abs" else z3.If(nz > 0, 1, z3.If(nz < 0, -1, 0))
+                    it.check(f"post:exactly-the-mathematical-{fname}-for-every-int", zi(o.value.fields["value"]) == want)
+            else:
+                x = n.fields["value"].z
+                if fname == "abs":
+                    # (0 - x for negative x: exact in IEEE arithmetic, a rounded difference in the engine's float model - the
+                    #  magnitude of a negated decimal is not claimed here, the integer clause is the property's)
+                    it.check("post:a-decimal;-a-non-negative-one-is-returned-as-it-is", cls_name(o.value) == "ValueDecimal")
+                    if cls_name(o.value) == "ValueDecimal":
+                        it.check("post:non-negative-decimal-unchanged", z3.Implies(x >= 0, o.value.fields["value"].z == x))
+                else:
+                    it.check("post:sign-of-a-decimal-is-an-int", cls_name(o.value) == "ValueInt")
+                    if cls_name(o.value) == "ValueInt":
+                        it.check("post:sign-of-a-decimal", zi(o.value.fields["value"]) == z3.If(x > 0, 1, z3.If(x < 0, -1, 0)))
+        return post
+    for fname in ("abs", "sign"):
+        U.append(Unit("nodes.py::NodeDerefInvoke.evaluate", s_absign(fname), p_absign(fname), name=f"math.ckl::{fname}[real module source, every int / decimal / NULL / non-number]",
+                      replay=replay_lang([("require Math; Math->abs(-3)", "3"), ("require Math; Math->abs(1180591620717411303424 * -1)", "1180591620717411303424"),
+                                          ("require Math; Math->sign(-3)", "-1"), ("require Math; Math->sign(0)", "0")])))
+
+    def s_gcd(it):
+        a, b = V.int(it, "a"), V.int(it, "b")
+        az, bz = zi(a.fields["value"]), zi(b.fields["value"])
+        calls = []
+
+        def patch(it_, R, I):
+            real = R.reflect(I.environment.map["Math"].value["gcd"])
+            F_ = _StubFuncs(w)
+
+            def contract(it__, vals):
+                # induction hypothesis: for arguments with a smaller measure the function returns E(a', b') >= 0, > 0 unless both are 0
+                x, y = vals
+                ok = cls_name(x) == "ValueInt" and cls_name(y) == "ValueInt"
+                it__.check("rec:recursive-call-with-ints", ok)
+                xz, yz = zi(x.fields["value"]), zi(y.fields["value"])
+                it__.check("rec:measure-|b|-decreases", z3.And(zabs(yz) < zabs(bz)))
+                calls.append((xz, yz))
+                g = GCD(xz, yz)
+                it__.path.assume(z3.And(g >= 0, z3.Implies(z3.Or(xz != 0, yz != 0), g > 0)), check=False)
+                r = V._mk("ValueInt", {"value": SInt(g)})
+                return r
+            menv = real.fields["lexicalEnv"]
+            for e in menv.fields["map"].entries:
+                if e[0] == "gcd":
+                    e[1] = F_.func("gcd", ["a", "b"], contract)
+        call, env = ckl_call(it, "Math->gcd(a, b)", {"a": a, "b": b}, patch)
+        return [call, env], {}, {"a": az, "b": bz, "calls": calls}
+
+    def p_gcd(it, c, o):
+        a, b = c["a"], c["b"]
+        it.check("post:returns-an-int", o.kind == "return" and cls_name(o.value) == "ValueInt")
+        if o.kind != "return" or cls_name(o.value) != "ValueInt":
+            return
+        r = zi(o.value.fields["value"])
+        # the defining equations of Euclid's function, unfolded once at (a, b)
+        it.check("post:gcd(a, 0) = |a| and gcd(a, b) = gcd(b, a mod b)", r == z3.If(b == 0, zabs(a), GCD(b, pymod(a, b))))
+        it.check("post:never-negative-and-positive-unless-both-arguments-are-0", z3.And(r >= 0, z3.Implies(z3.Or(a != 0, b != 0), r > 0)))
+    U.append(Unit("nodes.py::NodeDerefInvoke.evaluate", s_gcd, p_gcd, name="math.ckl::gcd[real module source, all ints, induction on |b|]",
+                  replay=replay_lang([("require Math; Math->gcd(4, -6)", "2"), ("require Math; Math->gcd(-4, 6)", "2"), ("require Math; Math->gcd(0, -5)", "5"),
+                                      ("require Math; Math->gcd(0, 0)", "0"), ("require Math; Math->gcd(12, 18)", "6")])))
+
+    def s_lcm(it):
+        a, b = V.int(it, "a"), V.int(it, "b")
+        az, bz = zi(a.fields["value"]), zi(b.fields["value"])
+
+        def patch(it_, R, I):
+            real = R.reflect(I.environment.map["Math"].value["lcm"])
+            F_ = _StubFuncs(w)
+
+            def contract(it__, vals):      # callee contract of gcd (the unit above)
+                x, y = vals
+                xz, yz = zi(x.fields["value"]), zi(y.fields["value"])
+                g = GCD(xz, yz)
+                it__.path.assume(z3.And(g >= 0, z3.Implies(z3.Or(xz != 0, yz != 0), g > 0)), check=False)
+                return V._mk("ValueInt", {"value": SInt(g)})
+            for e in real.fields["lexicalEnv"].fields["map"].entries:
+                if e[0] == "gcd":
+                    e[1] = F_.func("gcd", ["a", "b"], contract)
+        call, env = ckl_call(it, "Math->lcm(a, b)", {"a": a, "b": b}, patch)
+        return [call, env], {}, {"a": az, "b": bz}
+
+    def p_lcm(it, c, o):
+        a, b = c["a"], c["b"]
+        it.check("post:returns-an-int", o.kind == "return" and cls_name(o.value) == "ValueInt")
+        if o.kind != "return" or cls_name(o.value) != "ValueInt":
+            return
+        r = zi(o.value.fields["value"])
+        g = GCD(a, b)
+        it.check("post:lcm = 0 if an argument is 0, else |a * b| div gcd(a, b); never negative",
+                 z3.And(r == z3.If(z3.Or(a == 0, b == 0), 0, zabs(a * b) / g), r >= 0))
+    U.append(Unit("nodes.py::NodeDerefInvoke.evaluate", s_lcm, p_lcm, name="math.ckl::lcm[real module source, all ints, gcd by its contract]",
+                  config={"prefer": "z3"},
+                  replay=replay_lang([("require Math; Math->lcm(0, 0)", "0"), ("require Math; Math->lcm(4, -6)", "12"), ("require Math; Math->lcm(21, 6)", "42")])))
+
     return U
 
 
